@@ -137,6 +137,15 @@ def best(cands, errfn):
 def gen_alg_row(rng, name, eps, big=True):
     a, tag = U.gen_algebra(rng, name, eps, big=big)
     c = rng.random()
+    if big and c > 0.95:   # large norm well beyond the usual range: angle up to 100, translation up to 1e6, log-scale up to ±20 (±8 float32)
+        f64 = eps < 1e-10
+        out = []
+        if name in ("SE3", "Sim3"):
+            out += U.vec(rng, 10 ** rng.uniform(3, 6))
+        out += U.vec(rng, rng.choice([rng.uniform(10, 100), 100.0, 31.4]))
+        if name in ("RxSO3", "Sim3"):
+            out.append(rng.choice([-1, 1]) * rng.uniform(8, 20 if f64 else 8))
+        return out, "extreme"
     if c < 0.07:
         a, tag = [0.0] * len(a), "zero"
     elif c < 0.2:
@@ -158,6 +167,16 @@ def gen_alg_row(rng, name, eps, big=True):
 
 def gen_grp_row(rng, name, eps):
     c = rng.random()
+    if c > 0.95:   # valid but extreme: scale e^±40 (e^±15 float32), translation up to 1e6
+        f64 = eps < 1e-10
+        q, _ = U.gen_unit_quat(rng, eps)
+        out = []
+        if name in ("SE3", "Sim3"):
+            out += U.vec(rng, 10 ** rng.uniform(3, 6))
+        out += q
+        if name in ("RxSO3", "Sim3"):
+            out.append(math.exp(rng.choice([-1, 1]) * rng.uniform(8, 40 if f64 else 15)))
+        return out, "extreme"
     if c < 0.05:
         return {"SO3": [0, 0, 0, 1.], "SE3": [0, 0, 0, 0, 0, 0, 1.], "RxSO3": [0, 0, 0, 1., 1.],
                 "Sim3": [0, 0, 0, 0, 0, 0, 1., 1.]}[name], "identity"
@@ -809,6 +828,67 @@ def mp_norm_inf(Ad):
     return max(sum(abs(Ad[i, j]) for j in range(Ad.cols)) for i in range(Ad.rows))
 
 
+def mp_hat4(mp, name, a):
+    """generator matrix of a tangent vector: 3x3 for so3, 4x4 [[sigma*1 + phi^, tau],[0,0]] otherwise"""
+    a = [mp.mpf(v) for v in a]
+    tau, phi, sg = aparts(name, a)
+    K = mp_hat(mp, phi)
+    if name == "SO3":
+        return K
+    H = mp.zeros(4, 4)
+    for i in range(3):
+        for j in range(3):
+            H[i, j] = K[i, j] + ((sg if i == j else 0) if sg is not None else 0)
+        if tau is not None:
+            H[i, 3] = tau[i]
+    return H
+
+
+def adj_oracle_case(ctx: Ctx, case, got=None) -> bool:
+    """Adj(X,a) / AdjT(X,a) against the definition evaluated exactly: (Adj X a)^ = M a^ M^-1 (AdjT: M^-1 a^ M) with M = matrix(X) as
+    returned by the real code, inverse and products in 30-digit arithmetic; algebraic tolerance 64*eps per block."""
+    P = U.pp()
+    mp = mp_mod()
+    name, dtype, op = case["type"], case["dtype"], case["op"]
+    D, e = U.dt(dtype), teps(dtype)
+    algT = getattr(P, U.ALG[name] + "_type")
+    n0 = len(ctx.failures)
+    try:
+        X = U.lt(name, case["X"], D)
+        a = P.LieTensor(torch.tensor(case["a"], dtype=torch.float64).to(D), ltype=algT)
+        if got is None:
+            got = (X.Adj(a) if op == "Adj" else X.AdjT(a)).tensor().double().tolist()
+        mp.mp.dps = 50
+        Mf = X.matrix().double()
+        n = Mf.shape[-1]
+        M = mp.matrix([[mp.mpf(float(Mf[i, j])) for j in range(n)] for i in range(n)])
+        Mi = M ** -1
+        H = mp_hat4(mp, name, a.tensor().double().tolist())
+        C = (M * H * Mi) if op == "Adj" else (Mi * H * M)
+        ref = [0.0] * U.ADIM[name]
+        ps = U.PHISL[name]
+        ref[ps.start], ref[ps.start + 1], ref[ps.start + 2] = float((C[2, 1] - C[1, 2]) / 2), float((C[0, 2] - C[2, 0]) / 2), float((C[1, 0] - C[0, 1]) / 2)
+        if U.TAUSL[name] is not None:
+            ts = U.TAUSL[name]
+            for i in range(3):
+                ref[ts.start + i] = float(C[i, 3])
+        if U.SIGIDX[name] is not None:
+            ref[U.SIGIDX[name]] = float((C[0, 0] + C[1, 1] + C[2, 2]) / 3)
+        x = X.tensor().double().tolist()
+        av = a.tensor().double().tolist()
+        noise = 1e-38 * max(1.0, max(abs(float(C[i, j])) for i in range(n) for j in range(n)))   # 50-digit arithmetic
+        ref = [g if abs(g - r) <= noise else r for g, r in zip(got, ref)]
+        errs = adj_errfn(name, dtype, x, av, op == "AdjT", got)(ref)
+        bb = bad_blocks(errs)
+        if bb:
+            ctx.fail(case, f"adj-exact: {name}.{op}(X,a) differs from vee(M a^ M^-1) (M = matrix(X), exact conjugation) ({dtype}): {bb}")
+    except Exception as ex:
+        ctx.fail(case, f"raises: adjoint oracle on {name} raised {type(ex).__name__}: {str(ex)[:160]}")
+    finally:
+        mp.mp.dps = 30
+    return len(ctx.failures) == n0
+
+
 def jinvp_oracle_case(ctx: Ctx, case, got=None) -> bool:
     """Jinvp(X,p) vs exact JlInv(Log X)·p (mpmath) and vs the finite difference of Log(Exp(h p)@X).
     `got`: the item's value taken from a batched call (search after a correspondence break), else computed here."""
@@ -907,6 +987,9 @@ def jr_oracle_case(ctx: Ctx, case, got=None) -> bool:
     n0 = len(ctx.failures)
     try:
         J = x.Jr() if got is None else torch.tensor(got, dtype=D).reshape(3, 3)
+        if tuple(J.shape) != (3, 3) or not bool(torch.isfinite(J).all()):
+            ctx.fail(case, f"jr-value: so3.Jr returned shape {tuple(J.shape)} / non-finite entries at theta={th:.3e} ({dtype})")
+            return False
         got = J.double().reshape(-1).tolist()
         K = mp_hat(mp, [mp.mpf(v) for v in xv])
         ref = mp_Jl(mp, -K)
@@ -953,6 +1036,402 @@ def run_jr_oracle(ctx: Ctx, n_cases: int):
     ctx.sample({"stream": "jr", "example": case}, cap=15)
 
 
+# ----------------------------------------------------------------------------- deterministic corner corpus (runs first, seed independent)
+
+def quat_of(angle, axis, neg=False):
+    sn, w = math.sin(angle / 2), math.cos(angle / 2)
+    q = [axis[0] * sn, axis[1] * sn, axis[2] * sn, w]
+    return [-v for v in q] if neg else q
+
+
+AX = [(0.0, 0.0, 1.0), (0.6, 0.0, 0.8), (1 / 3, -2 / 3, 2 / 3), (-0.8, 0.6, 0.0)]
+DIRS = [(1.0, 0.0, 0.0), (0.48, -0.6, 0.64), (-2 / 7, 3 / 7, 6 / 7), (0.0, -1.0, 0.0)]
+
+
+def corner_group_rows(name, dtype):
+    """fixed group elements: identity, the eps-neighbourhood, sqrt(eps), ordinary in both hemispheres, pi-, |w| ~ 0 on both
+    sides, translations 0..1e6, scales e^±big with big beyond the 'documented' range (valid: any positive scale)"""
+    e = teps(dtype)
+    big = 40.0 if dtype == "float64" else 15.0
+    spec = [  # (tag, angle | explicit quaternion, axis#, negated, |t|, dir#, log-scale)
+        ("identity", 0.0, 0, False, 0.0, 0, 0.0),
+        ("th=eps/2", e / 2, 1, False, 1.0, 1, e / 2),
+        ("th=eps+", e * (1 + 2 ** -10), 2, True, 1e3, 2, -2 * e),
+        ("th=1e-9", 1e-9 if dtype == "float64" else 1e-5, 3, False, 0.0, 0, 1e-9),
+        ("th=sqrt(eps)", math.sqrt(e), 1, True, 3.0, 3, -math.sqrt(e)),
+        ("th=0.7", 0.7, 2, False, 2.0, 1, 0.7),
+        ("th=2.2,w<0", 2.2, 3, True, 0.5, 2, -3.0),
+        ("th=pi-1e-6", math.pi - 1e-6, 1, False, 1.0, 3, 0.1),
+        ("w=+eps/2", [math.sqrt(1 - (e / 2) ** 2), e / 2], 2, False, 1.0, 0, 0.0),
+        ("w=-eps/2", [math.sqrt(1 - (e / 2) ** 2), -e / 2], 0, False, 10.0, 1, 1.0),
+        ("scale=e^+big,t=1e6", 1.2, 2, False, 1e6, 2, big),
+        ("scale=e^-big,t=1e-3", 2.5, 3, True, 1e-3, 3, -big),
+    ]
+    rows = []
+    for tag, ang, ax, neg, tm, dr, ls in spec:
+        if isinstance(ang, list):
+            q = [AX[ax][0] * ang[0], AX[ax][1] * ang[0], AX[ax][2] * ang[0], ang[1]]
+        else:
+            q = quat_of(ang, AX[ax], neg)
+        r = []
+        if name in ("SE3", "Sim3"):
+            r += [tm * c for c in DIRS[dr]]
+        r += q
+        if name in ("RxSO3", "Sim3"):
+            r.append(math.exp(ls))
+        rows.append((r, tag))
+    return rows
+
+
+def corner_alg_rows(name, dtype):
+    """fixed tangent vectors: zero, eps-neighbourhoods of both switches, sqrt(eps), ordinary, pi, 2pi-, 7, 100 (large norm),
+    translations 0..1e6, log-scales 0, ±eps.., ±big"""
+    e = teps(dtype)
+    bigs = 20.0 if dtype == "float64" else 8.0
+    spec = [  # (tag, angle, axis#, |tau|, dir#, sigma)
+        ("zero", 0.0, 0, 0.0, 0, 0.0),
+        ("th=eps/2,sg=eps/2", e / 2, 1, 1.0, 1, e / 2),
+        ("th=eps+,sg=2eps", e * (1 + 2 ** -10), 2, 1e3, 2, 2 * e),
+        ("th=1e-9,sg=1e-9", 1e-9 if dtype == "float64" else 1e-5, 3, 0.0, 0, 1e-9 if dtype == "float64" else 1e-5),
+        ("th=sqrt(eps),sg=-sqrt(eps)", math.sqrt(e), 0, 2.0, 3, -math.sqrt(e)),
+        ("th=0.5,sg=0.7", 0.5, 1, 1.0, 1, 0.7),
+        ("th=pi,sg=-3", math.pi, 2, 3.0, 2, -3.0),
+        ("th=2pi-1e-6,tau=1e6", 2 * math.pi - 1e-6, 3, 1e6, 3, 0.0),
+        ("th=7", 7.0, 1, 0.1, 0, 1e-3),
+        ("th=100,sg=+big", 100.0, 2, 1.0, 1, bigs),
+        ("only-sigma=-big", 0.0, 0, 0.0, 0, -bigs),
+        ("only-tau=1", 0.0, 0, 1.0, 2, 0.0),
+    ]
+    rows = []
+    for tag, ang, ax, tm, dr, sg in spec:
+        r = []
+        if name in ("SE3", "Sim3"):
+            r += [tm * c for c in DIRS[dr]]
+        r += [ang * c for c in AX[ax]]
+        if name in ("RxSO3", "Sim3"):
+            r.append(sg)
+        rows.append((r, tag))
+    return rows
+
+
+def single_vs_batched(ctx, case, name, dtype, op, X, a, Z):
+    """mixed-regime oracle on the real code: every item of the batched result equals the same call on that item alone"""
+    P = U.pp()
+    e = teps(dtype)
+    fl = SCALE_FLOOR[dtype]
+    sa, sb = tuple(X.shape[:-1]), tuple(a.shape[:-1])
+    so = tuple(torch.broadcast_shapes(sa, sb))
+    Xe = X.tensor().expand(so + X.shape[-1:]).reshape(-1, X.shape[-1])
+    ae = torch.Tensor.as_subclass(a, torch.Tensor).expand(so + a.shape[-1:]).reshape(-1, a.shape[-1])
+    Zf = Z.tensor().reshape(-1, Z.shape[-1])
+    algT = getattr(P, U.ALG[name] + "_type")
+    blocks = [sl for sl in ((U.PHISL[name], U.TAUSL[name], U.SIGIDX[name]) if Z.ltype == algT else
+                            (U.QSL[name], U.TSL[name], U.SIDX[name])) if sl is not None]
+    for i in range(Xe.shape[0]):
+        Xi = P.LieTensor(Xe[i].clone(), ltype=U.ltype(name))
+        ai = P.LieTensor(ae[i].clone(), ltype=algT)
+        zi = {"Adj": lambda: Xi.Adj(ai), "AdjT": lambda: Xi.AdjT(ai), "Retr": lambda: Xi.Retr(ai), "add": lambda: Xi + ai.tensor(),
+              "Jinvp": lambda: Xi.Jinvp(ai)}[op]().tensor()
+        if torch.equal(torch.nan_to_num(zi, nan=1.2345), torch.nan_to_num(Zf[i], nan=1.2345)):
+            continue
+        for sl in blocks:
+            sl = slice(sl, sl + 1) if isinstance(sl, int) else sl
+            d = float((zi[sl].double() - Zf[i][sl].double()).abs().max())
+            sc = float(zi[sl].double().abs().max())
+            if not d <= 16 * e * max(sc, fl):
+                ctx.fail(case | {"item": {"index": i, "X": Xe[i].double().tolist(), "a": ae[i].double().tolist()}},
+                         f"mixed-batch: {op} of a {tuple(so)} batch of {name} ({dtype}) differs at item {i} from the same call on that item "
+                         f"alone by {d:.3e} (block scale {sc:.3e})")
+                return False
+    return True
+
+
+def run_corpus(ctx: Ctx):
+    """deterministic corner corpus: every group row x every tangent row in ONE mixed-regime batched call per op, compared
+    item-wise with the model, with the single-item call, and through the laws / exact oracles"""
+    P = U.pp()
+    pend = []
+    for name in U.GROUPS:
+        for dtype in ("float64", "float32"):
+            gr, ar = corner_group_rows(name, dtype), corner_alg_rows(name, dtype)
+            Xr = U.to_dtype_exact([r[0] for r in gr], dtype)[1].tolist()
+            Ar = U.to_dtype_exact([r[0] for r in ar], dtype)[1].tolist()
+            base = {"stream": "corpus", "type": name, "dtype": dtype, "shape_X": [len(Xr), 1], "shape_a": [len(Ar)], "X": Xr, "a": Ar,
+                    "tags": ["corner"], "id": 1}
+            for op in ("Adj", "AdjT", "Retr", "add", "Jinvp"):
+                case = dict(base, op=op, a_lt=(op != "add"))
+                if op == "add":
+                    case.update(api="+", extra=0, alpha=1.0)
+                pend += prepare(ctx, case)
+                ctx.note_case(("corpus", op, name, dtype), True)
+                ctx.count(f"corpus.{op}.{name}.{dtype}", len(Xr) * len(Ar))
+                try:
+                    T = tensors_of(case)
+                    X, a = T["X"], T["a"]
+                    aL = a if isinstance(a, P.LieTensor) else P.LieTensor(a, ltype=getattr(P, U.ALG[name] + "_type"))
+                    Z = {"Adj": lambda: X.Adj(aL), "AdjT": lambda: X.AdjT(aL), "Retr": lambda: X.Retr(aL), "add": lambda: X + a,
+                         "Jinvp": lambda: X.Jinvp(aL)}[op]()
+                    single_vs_batched(ctx, case, name, dtype, op, X, aL, Z)
+                except Exception as ex:
+                    ctx.fail(case, f"raises: corpus {op} on {name} {dtype} raised {type(ex).__name__}: {str(ex)[:160]}")
+            law_case(ctx, {"stream": "laws", "type": name, "dtype": dtype, "shape_X": [len(Xr), 1], "shape_a": [len(Ar)], "X": Xr, "a": Ar})
+            for i, x in enumerate(Xr):   # exact adjoint oracle on a fixed pairing (three tangent rows per group row)
+                for j in ((5 * i) % len(Ar), (5 * i + 4) % len(Ar), (5 * i + 8) % len(Ar)):
+                    for op in ("Adj", "AdjT"):
+                        adj_oracle_case(ctx, {"stream": "adj", "type": name, "dtype": dtype, "op": op, "X": x, "a": Ar[j]})
+                        ctx.count(f"corpus.adj-exact.{name}")
+            for i, x in enumerate(Xr):   # exact Jinvp oracle on a fixed pairing
+                q = x[U.QSL[name]]
+                if 2 * math.atan2(n2(q[:3]), abs(q[3])) > 3.1:
+                    continue
+                jinvp_oracle_case(ctx, {"stream": "jinvp", "type": name, "dtype": dtype, "X": x, "p": Ar[(3 * i + 1) % len(Ar)], "fd": False})
+                ctx.note_case(("corpus-jinvp", name, dtype, i), True)
+    for dtype in ("float64", "float32"):
+        rows = corner_alg_rows("SO3", dtype)
+        xs = U.to_dtype_exact([r[0] for r in rows], dtype)[1].tolist()
+        for x in xs:
+            jr_oracle_case(ctx, {"stream": "jr", "type": "SO3", "dtype": dtype, "x": x, "d": [0.48, -0.6, 0.64]})
+        for api in ("so3.Jr", "SO3.Jr"):
+            case = {"stream": "corpus", "op": "Jr", "api": api, "type": "SO3", "dtype": dtype, "shape_X": [len(xs)], "id": 0, "tags": ["corner"]}
+            if api == "so3.Jr":
+                case["x"] = xs
+            else:
+                gx = U.to_dtype_exact([r[0] for r in corner_group_rows("SO3", dtype)], dtype)[1].tolist()
+                case["X"], case["shape_X"] = gx, [len(gx)]
+            pend += prepare(ctx, case)
+            # mixed batch vs single items
+            try:
+                T = tensors_of(case)
+                obj = T["x"] if api == "so3.Jr" else T["X"]
+                J = obj.Jr()
+                for i in range(obj.shape[0]):
+                    Ji = P.LieTensor(obj.tensor()[i].clone(), ltype=obj.ltype).Jr()
+                    if not float((Ji.double() - J[i].double()).abs().max()) <= 16 * teps(dtype) * float(Ji.abs().max()):
+                        ctx.fail(case | {"item": {"index": i}}, f"mixed-batch: {api} of a mixed batch differs at item {i} from the single call ({dtype})")
+                        break
+            except Exception as ex:
+                ctx.fail(case, f"raises: corpus {api} raised {type(ex).__name__}: {str(ex)[:160]}")
+    flush(ctx, pend)
+
+
+# ----------------------------------------------------------------------------- history probe: object reuse, stale reads, attributes
+
+def history_probe(ctx: Ctx):
+    """ONE group object, ONE algebra operand object and ONE plain-tensor operand live through a fixed history in which every
+    per-call argument changes (values, batch shape, LieTensor / Tensor, alpha) and all three are updated in place between calls;
+    after every step each read must equal, bit for bit, the same read on fresh clones, must leave its arguments untouched, and
+    must not add attributes to the objects.  Catches memoisation keyed by too little and stale state (deterministic)."""
+    P = U.pp()
+    import random as _r
+    rng = _r.Random(505)
+    for name in U.GROUPS:
+        for dtype in ("float64", "float32"):
+            eps, D = teps(dtype), U.dt(dtype)
+            G, A = U.GDIM[name], U.ADIM[name]
+            algT = getattr(P, U.ALG[name] + "_type")
+
+            def grp(k):
+                return P.LieTensor(torch.tensor([U.gen_group(rng, name, eps, thi=2.0, shi=0.5)[0] for _ in range(k)], dtype=torch.float64).to(D),
+                                   ltype=U.ltype(name))
+
+            def alg(shape, extra=0):
+                n = int(math.prod(shape))
+                rows = [U.gen_algebra(rng, name, eps, big=False, thi=1.0, shi=0.3)[0] + [rng.uniform(-2, 2)] * extra for _ in range(n)]
+                return torch.tensor(rows, dtype=torch.float64).reshape(tuple(shape) + (A + extra,)).to(D)
+            st = {"X": grp(3), "a": P.LieTensor(alg((3,)), ltype=algT), "t": alg((1,), extra=1), "alpha": 1.0}
+            case = {"stream": "history", "type": name, "dtype": dtype}
+
+            def reads(o):
+                X, a, t, al = o["X"], o["a"], o["t"], o["alpha"]
+                r = {"Adj": lambda: X.Adj(a), "AdjT": lambda: X.AdjT(a), "Jinvp": lambda: X.Jinvp(a), "Retr": lambda: X.Retr(a),
+                     "X+t": lambda: X + t, "add(t,alpha)": lambda: X.add(t, alpha=al), "a+t": lambda: a + t,
+                     "Exp(a)@X": lambda: a.Exp() @ X}
+                if name == "SO3":
+                    r["X.Jr"] = lambda: X.Jr()
+                    r["a.Jr"] = lambda: a.Jr()
+                return r
+            steps = [
+                ("first reads", lambda: None),
+                ("X.add_(new)", lambda: st["X"].add_(alg((3,)))),
+                ("a.copy_(new)", lambda: st["a"].copy_(P.LieTensor(alg(tuple(st["a"].shape[:-1])), ltype=algT))),
+                ("t.mul_(-2)", lambda: st["t"].mul_(-2.0)),
+                ("X[1]=new", lambda: st["X"].__setitem__(1, grp(1)[0])),
+                ("a[0]=new", lambda: st["a"].__setitem__(0, P.LieTensor(alg(()), ltype=algT))),
+                ("new operand object, other batch shape", lambda: st.__setitem__("a", P.LieTensor(alg((1,)), ltype=algT))),
+                ("alpha changes", lambda: st.__setitem__("alpha", -0.5)),
+                ("X.copy_(new)", lambda: st["X"].copy_(grp(3))),
+                ("a.add_(vector)", lambda: st["a"].add_(alg((1,)))),
+                ("new plain operand, wider", lambda: st.__setitem__("t", alg((3,), extra=2))),
+                ("a.tensor().mul_(0.5)", lambda: st["a"].tensor().mul_(0.5)),
+                ("operand shape () ", lambda: st.__setitem__("a", P.LieTensor(alg(()), ltype=algT))),
+                ("X.add_(t)", lambda: st["X"].add_(st["t"])),
+                ("X.tensor()[2]=row0", lambda: st["X"].tensor().__setitem__(2, st["X"].tensor()[0].clone())),
+            ]
+            try:
+                attrs0 = {k2: set(vars(st[k2]).keys()) for k2 in ("X", "a")}
+                tattrs0 = {k2: set(vars(type(st[k2].ltype)).keys()) | set(vars(st[k2].ltype).keys()) for k2 in ("X", "a")}
+                attr_reported = False
+                for si, (lab, upd) in enumerate(steps):
+                    upd()
+                    ref = {"X": st["X"].clone(), "a": st["a"].clone(), "t": st["t"].clone(), "alpha": st["alpha"]}
+                    r1, r2 = reads(st), reads(ref)
+                    # the calls on the long-lived objects come first: whatever the previous step left behind is still in place
+                    z1s = {key: fn() for key, fn in r1.items()}
+                    for k2 in ("X", "a", "t"):
+                        if not torch.equal(torch.Tensor.as_subclass(st[k2], torch.Tensor), torch.Tensor.as_subclass(ref[k2], torch.Tensor)):
+                            ctx.fail(case | {"step": si}, f"purity: a read modified its operand `{k2}` ({name}, {dtype})")
+                            raise StopIteration
+                    z2s = {key: fn() for key, fn in r2.items()}
+                    for key in r1:
+                        z1, z2 = z1s[key], z2s[key]
+                        z1 = z1.tensor() if hasattr(z1, "ltype") else z1
+                        z2 = z2.tensor() if hasattr(z2, "ltype") else z2
+                        ctx.note_case(("history", name, dtype, si, key), True)
+                        ctx.count(f"history.{name}")
+                        if z1.shape != z2.shape or not torch.equal(torch.nan_to_num(z1, nan=1.2345), torch.nan_to_num(z2, nan=1.2345)):
+                            ctx.fail(case | {"step": si, "update": lab, "read": key},
+                                     f"stale: {key} on long-lived {name} objects after step #{si} ({lab}) differs from the same call on fresh "
+                                     f"clones ({dtype})")
+                            raise StopIteration
+                    for fn in r1.values():       # prime: the last call of every op is again on the long-lived objects
+                        fn()
+                    if si in (6, 12):
+                        attrs0["a"] = set(vars(st["a"]).keys())
+                    for k2 in ("X", "a"):
+                        extra_attrs = (set(vars(st[k2]).keys()) - attrs0[k2]) | \
+                                      ((set(vars(type(st[k2].ltype)).keys()) | set(vars(st[k2].ltype).keys())) - tattrs0[k2])
+                        if extra_attrs and not attr_reported:
+                            attr_reported = True
+                            ctx.fail(case | {"step": si}, f"attributes: calls left new attributes {sorted(extra_attrs)} on the {k2} object / its "
+                                                          f"ltype ({name}) — hidden state")
+                    if st["X"].ltype != U.ltype(name) or st["a"].ltype != algT or st["X"].dtype != D:
+                        ctx.fail(case | {"step": si}, f"attributes: ltype / dtype of a long-lived object changed ({name})")
+                        raise StopIteration
+            except StopIteration:
+                pass
+            except Exception as ex:
+                ctx.fail(case, f"raises: history probe on {name} {dtype} raised {type(ex).__name__}: {str(ex)[:160]}")
+
+
+# ----------------------------------------------------------------------------- views and aliases
+
+def run_views(ctx: Ctx):
+    """arguments that are strided slices of a larger buffer, last-dim windows, transposed, expanded; in-place updates through a
+    view (values outside the view untouched); one storage passed as two arguments.  Reference: the same call on contiguous clones,
+    bit for bit.  Deterministic."""
+    P = U.pp()
+    import random as _r
+    rng = _r.Random(606)
+    for name in U.GROUPS:
+        for dtype in ("float64", "float32"):
+            eps, D = teps(dtype), U.dt(dtype)
+            G, A = U.GDIM[name], U.ADIM[name]
+            algT = getattr(P, U.ALG[name] + "_type")
+            case = {"stream": "views", "type": name, "dtype": dtype}
+
+            def gdata(*shape):
+                n = int(math.prod(shape))
+                return torch.tensor([gen_grp_row(rng, name, eps)[0] for _ in range(n)], dtype=torch.float64).reshape(shape + (G,)).to(D)
+
+            def adata(*shape):
+                n = int(math.prod(shape))
+                return torch.tensor([U.gen_algebra(rng, name, eps, big=False, thi=2.0, shi=0.5)[0] for _ in range(n)],
+                                    dtype=torch.float64).reshape(shape + (A,)).to(D)
+
+            def views_of(data, width):
+                """{kind: (buffer, view)} all holding `data` (2,3,width)"""
+                out = {}
+                buf = torch.full((2, 6, width), 0.25, dtype=D)
+                buf[:, ::2] = data
+                out["strided-batch"] = (buf, buf[:, ::2])
+                wide = torch.full((2, 3, width + 3), -0.5, dtype=D)
+                wide[..., 1:1 + width] = data
+                out["last-dim-window"] = (wide, wide[..., 1:1 + width])
+                tb = data.transpose(0, 1).contiguous()
+                out["transposed"] = (tb, tb.transpose(0, 1))
+                return out
+            try:
+                Xd, ad = gdata(2, 3), adata(2, 3)
+                ops = {"Adj": lambda X, a: X.Adj(a), "AdjT": lambda X, a: X.AdjT(a), "Jinvp": lambda X, a: X.Jinvp(a),
+                       "Retr": lambda X, a: X.Retr(P.LieTensor(a, ltype=algT)), "+": lambda X, a: X + a, "pp.add": lambda X, a: P.add(X, a)}
+                Xc = P.LieTensor(Xd.clone(), ltype=U.ltype(name))
+                want = {k2: f(Xc, ad.clone()).tensor() for k2, f in ops.items()}
+                xviews, aviews = views_of(Xd, G), views_of(ad, A)
+                xviews["expanded"] = (Xd[:, :1].clone(), None)
+                for xk, (xbuf, xv) in xviews.items():
+                    for ak, (abuf, av) in list(aviews.items()) + [("contiguous", (ad.clone(), None))]:
+                        if xk == "expanded":
+                            Xv = P.LieTensor(xbuf.expand(2, 3, G), ltype=U.ltype(name))
+                            wantx = {k2: f(P.LieTensor(xbuf.expand(2, 3, G).clone(), ltype=U.ltype(name)), ad.clone()).tensor() for k2, f in ops.items()}
+                        else:
+                            Xv, wantx = P.LieTensor(xv, ltype=U.ltype(name)), want
+                        avv = av if av is not None else abuf
+                        xb0, ab0 = xbuf.clone(), abuf.clone()
+                        for k2, f in ops.items():
+                            z = f(Xv, avv).tensor()
+                            ctx.note_case(("views", name, dtype, xk, ak, k2), True)
+                            ctx.count(f"views.{xk}|{ak}")
+                            if z.shape != wantx[k2].shape or not torch.equal(torch.nan_to_num(z, nan=1.2345), torch.nan_to_num(wantx[k2], nan=1.2345)):
+                                ctx.fail(case | {"X_view": xk, "a_view": ak, "op": k2},
+                                         f"views: {k2} with X as a {xk} view and a as a {ak} view differs from the call on contiguous copies ({name}, {dtype})")
+                            if not torch.equal(xbuf, xb0) or not torch.equal(abuf, ab0):
+                                ctx.fail(case | {"X_view": xk, "a_view": ak, "op": k2}, f"purity: {k2} wrote into the buffers behind its view arguments ({name})")
+                # in-place update through a view: the view holds Retr, the rest of the buffer is untouched
+                for api in ("add_", "pp.add_", "add_(alpha)"):
+                    for xk in ("strided-batch", "last-dim-window", "transposed"):
+                        for ak, (abuf, av) in list(views_of(ad, A).items())[:2] + [("contiguous", (ad.clone(), ad.clone()))]:
+                            xbuf, xv = views_of(Xd, G)[xk]
+                            Xv = P.LieTensor(xv, ltype=U.ltype(name))
+                            al = 0.5 if api == "add_(alpha)" else 1.0
+                            exp_view = P.LieTensor(Xd.clone(), ltype=U.ltype(name)).add(av.clone(), alpha=al).tensor()
+                            expect = xbuf.clone()
+                            if xk == "strided-batch":
+                                expect[:, ::2] = exp_view
+                            elif xk == "last-dim-window":
+                                expect[..., 1:1 + G] = exp_view
+                            else:
+                                expect = exp_view.transpose(0, 1).contiguous()
+                            a0 = abuf.clone()
+                            r = Xv.add_(av) if api == "add_" else (P.add_(Xv, av) if api == "pp.add_" else Xv.add_(av, alpha=al))
+                            if not isinstance(r, P.LieTensor) or r.ltype != Xv.ltype:
+                                ctx.fail(case | {"X_view": xk, "api": api}, f"views-inplace: {api} on a {xk} view returned {type(r).__name__}, not the "
+                                                                             f"LieTensor it was called on ({name})")
+                                r = Xv
+                            ctx.note_case(("views-inplace", name, dtype, api, xk, ak), True)
+                            ctx.count(f"views.inplace.{xk}")
+                            if not torch.equal(torch.nan_to_num(xbuf, nan=1.2345), torch.nan_to_num(expect, nan=1.2345)):
+                                inside = torch.equal(torch.nan_to_num(Xv.tensor(), nan=1.2345), torch.nan_to_num(exp_view, nan=1.2345))
+                                ctx.fail(case | {"X_view": xk, "a_view": ak, "api": api},
+                                         f"views-inplace: {api} through a {xk} view of a larger buffer: " +
+                                         ("storage outside the view was modified" if inside else "the view does not hold Exp(a)@X afterwards") +
+                                         f" ({name}, {dtype})")
+                            if r.data_ptr() != Xv.data_ptr():
+                                ctx.fail(case | {"X_view": xk, "api": api}, f"views-inplace: {api} did not return its (view) input ({name})")
+                            if not torch.equal(abuf, a0):
+                                ctx.fail(case | {"X_view": xk, "a_view": ak, "api": api}, f"purity: {api} modified the tangent operand's buffer ({name})")
+                # aliases: one storage as both arguments
+                Xa = P.LieTensor(Xd.clone(), ltype=U.ltype(name))
+                alias = Xa.tensor()[..., :A]
+                for k2, f in ops.items():
+                    z = f(Xa, alias).tensor()
+                    w = f(P.LieTensor(Xd.clone(), ltype=U.ltype(name)), Xd[..., :A].clone()).tensor()
+                    if not torch.equal(torch.nan_to_num(z, nan=1.2345), torch.nan_to_num(w, nan=1.2345)):
+                        ctx.fail(case | {"op": k2}, f"alias: {k2}(X, view of X's own storage) differs from the call on separate copies ({name}, {dtype})")
+                Xa.add_(alias)
+                w = P.LieTensor(Xd.clone(), ltype=U.ltype(name)).add_(Xd[..., :A].clone()).tensor()
+                if not torch.equal(torch.nan_to_num(Xa.tensor(), nan=1.2345), torch.nan_to_num(w, nan=1.2345)):
+                    ctx.fail(case | {"op": "add_"}, f"alias: X.add_(view of X's own storage) differs from the update with a separate copy ({name}, {dtype})")
+                x = P.LieTensor(ad.clone(), ltype=algT)
+                if not torch.equal((x + x).tensor(), 2 * ad) or not torch.equal(x.tensor(), ad):
+                    ctx.fail(case | {"op": "x+x"}, f"alias: algebra x + x is not 2x / modified x ({name}, {dtype})")
+                x.add_(x)
+                if not torch.equal(x.tensor(), 2 * ad):
+                    ctx.fail(case | {"op": "x.add_(x)"}, f"alias: algebra x.add_(x) is not 2x ({name}, {dtype})")
+                ctx.note_case(("views-alias", name, dtype), True)
+            except Exception as ex:
+                ctx.fail(case, f"raises: views stream on {name} {dtype} raised {type(ex).__name__}: {str(ex)[:200]}")
+
+
 # ----------------------------------------------------------------------------- entry points
 
 def run(ctx: Ctx):
@@ -968,10 +1447,13 @@ def run(ctx: Ctx):
         if name == "SO3":
             r["Jr"] = lambda o: o.Jr()
         return r
-    _UL.persistent_probe(ctx, _reads)
     torch.set_num_threads(2)
-    run_ops(ctx, ctx.pick(700, 7000))
-    run_laws(ctx, ctx.pick(400, 5000))
+    _UL.persistent_probe(ctx, _reads)
+    history_probe(ctx)
+    run_views(ctx)
+    run_corpus(ctx)
+    run_ops(ctx, ctx.pick(600, 7000))
+    run_laws(ctx, ctx.pick(300, 5000))
     run_jinvp_oracle(ctx, ctx.pick(160, 2500))
     run_jr_oracle(ctx, ctx.pick(120, 2000))
 
@@ -983,6 +1465,18 @@ def search(ctx: Ctx):
         for d in list(ctx.disagreements)[:200]:
             c = d["case"]
             it = c.get("item") or {}
+            if c.get("op") in ("Adj", "AdjT") and "X" in c and "a" in c and "index" in it:
+                try:
+                    T = tensors_of(c)
+                    so = tuple(torch.broadcast_shapes(tuple(c["shape_X"]), tuple(c["shape_a"])))
+                    G_, A_ = U.GDIM[c["type"]], U.ADIM[c["type"]]
+                    Z = (T["X"].Adj(T["a"]) if c["op"] == "Adj" else T["X"].AdjT(T["a"])).tensor().double().reshape(-1, A_)
+                    xi_ = T["X64"].expand(so + (G_,)).reshape(-1, G_)[it["index"]].tolist()
+                    ai_ = T["a64"].expand(so + (A_,)).reshape(-1, A_)[it["index"]].tolist()
+                    adj_oracle_case(ctx, {"stream": "adj", "type": c["type"], "dtype": c["dtype"], "op": c["op"], "X": xi_, "a": ai_,
+                                          "batched_from": {k2: c[k2] for k2 in ("shape_X", "shape_a")}}, got=Z[it["index"]].tolist())
+                except Exception:
+                    pass
             if c.get("op") in ("Adj", "AdjT", "Retr", "add") and "X" in c and "a" in c:
                 A_ = U.ADIM[c["type"]]
                 law_case(ctx, {"stream": "laws", "type": c["type"], "dtype": c["dtype"], "shape_X": c["shape_X"],
@@ -996,6 +1490,16 @@ def search(ctx: Ctx):
                     got = None
                 jinvp_oracle_case(ctx, {"stream": "jinvp", "type": c["type"], "dtype": c["dtype"], "X": it["X"], "p": it["p"],
                                         "fd": got is None, "batched_from": {k2: c[k2] for k2 in ("shape_X", "shape_a", "X", "a")}}, got=got)
+            if c.get("op") == "Jr" and c.get("api") == "SO3.Jr" and "X" in c:
+                try:
+                    T = tensors_of(c)
+                    J = T["X"].Jr().double().reshape(-1, 9)
+                    xs = T["X"].Log().tensor().double().reshape(-1, 3)
+                    i = it.get("index", 0)
+                    jr_oracle_case(ctx, {"stream": "jr", "type": "SO3", "dtype": c["dtype"], "x": xs[i].tolist(), "d": [1.0, 0.0, 0.0],
+                                         "api": "SO3.Jr", "batched_from": {k2: c[k2] for k2 in ("shape_X", "X")}}, got=J[i].tolist())
+                except Exception:
+                    pass
             if c.get("op") == "Jr" and c.get("api") != "SO3.Jr" and "x" in c:
                 try:
                     T = tensors_of(c)
@@ -1025,6 +1529,11 @@ def replay(ctx: Ctx, case) -> bool:
         ok = jinvp_oracle_case(ctx, c)
     elif st == "jr":
         ok = jr_oracle_case(ctx, c)
+    elif st == "adj":
+        ok = adj_oracle_case(ctx, c)
+    elif st in ("history", "views", "persistent"):   # deterministic streams: re-run the whole (seed independent) stream
+        {"history": history_probe, "views": run_views}.get(st, lambda cx: run(cx))(ctx)
+        ok = len(ctx.failures) == n0
     else:
         pend = prepare(ctx, c)
         flush(ctx, pend)
